@@ -236,7 +236,9 @@ func runCase(c *Case) vh.Outcome {
 		// expected at the backend: client's own cookies, then what a compliant jar holds for this session and URL
 		var want []string
 		want = append(want, st.Extra...)
-		limited := len(distinct) >= c.Limit-1 // beyond this, eviction may legitimately have dropped a jar
+		// the cache keeps the configured number of most recently used sessions: as long as no more ids than that have been
+		// used at all (the entry "" of the set stands for requests without a session and is not one), nothing may be missing
+		limited := len(distinct)-1 > c.Limit
 		if id != "" {
 			if model[id] == nil {
 				model[id] = newJar()
